@@ -100,6 +100,60 @@ class Run:
         if len(self.samples) < 40:
             self.samples.append(s)
 
+    # ---- parallel case splits (one process per case; results merged in order)
+    def export(self):
+        return {"obligations": self.obligations, "violations": self.violations, "samples": self.samples, "counts": self.counts,
+                "analysed": {"configs": self.analysed["configs"], "functions": sorted(self.analysed["functions"]), "entries": self.analysed["entries"]},
+                "notes": self.notes}
+
+    def absorb(self, d):
+        have = set((o["rule"], o["key"]) for o in self.obligations)
+        for o in d["obligations"]:
+            if (o["rule"], o["key"]) not in have:
+                have.add((o["rule"], o["key"]))
+                self.obligations.append(o)
+        for v in d["violations"]:
+            self.violation(v["rule"], v["key"], v["msg"], v["where"], v.get("detail"))
+        for s_ in d["samples"]:
+            self.sample(s_)
+        self.counts.update(d["counts"])
+        for c in d["analysed"]["configs"]:
+            if c not in self.analysed["configs"]:
+                self.analysed["configs"].append(c)
+        self.analysed["functions"] |= set(d["analysed"]["functions"])
+        self.analysed["entries"].extend(d["analysed"]["entries"])
+        for n in d["notes"]:
+            if n not in self.notes:
+                self.notes.append(n)
+
+    def parallel(self, modname, fname, items, jobs=None):
+        """run rules.<modname>.<fname>(R_sub, item) for every item in forked worker processes"""
+        import multiprocessing as mp
+        for c in self.configs:
+            self.facts(c)          # extract / load once in the parent (inherited by fork)
+        jobs = jobs or min(len(items), int(os.environ.get("VERIF_JOBS", "0")) or (os.cpu_count() or 4))
+        if jobs <= 1 or len(items) <= 1:
+            for it in items:
+                self.absorb(_run_task((modname, fname, self.prop, self.tier, it)))
+            return
+        ctx = mp.get_context("fork")
+        with ctx.Pool(jobs) as pool:
+            for d in pool.map(_run_task, [(modname, fname, self.prop, self.tier, it) for it in items], chunksize=1):
+                self.absorb(d)
+
+
+def _run_task(args):
+    modname, fname, prop, tier, item = args
+    R = Run(prop, tier)
+    mod = importlib.import_module("rules.%s" % modname)
+    try:
+        getattr(mod, fname)(R, item)
+    except (E.Undecided, FX.FactsError) as e:
+        R.undecided("ENGINE", "engine|%s|%s" % (type(e).__name__, item), "%s" % (str(e)[:500],))
+    except Exception as e:
+        R.undecided("ENGINE", "engine|crash|%s" % (item,), "checker crashed: %s\n%s" % (e, traceback.format_exc()[-1500:]))
+    return R.export()
+
 
 def span_str(sp):
     if not sp:
